@@ -1,6 +1,7 @@
 #!/usr/bin/env python3
-"""Apply every seeded change under seeded/ to /repo (one at a time, always reverted), run the claimed checks, and record in
-seeded/<name>/meta.json which checks report a violation / stay quiet / are undecided.  Never commits anything in /repo."""
+"""Apply every seeded change under seeded/ to a scratch export of /repo's HEAD (one at a time; /repo itself is not touched, the scratch copy lives
+under /var/tmp and is removed afterwards), run the claimed checks on it (./check <P> --src <scratch>), and record in seeded/<name>/meta.json which
+checks report a violation / stay quiet / are undecided."""
 import json, os, re, subprocess, sys
 VERIF = os.path.dirname(os.path.abspath(__file__))
 sys.path.insert(0, VERIF)
@@ -13,9 +14,9 @@ for name in sorted(os.listdir(os.path.join(VERIF, 'seeded'))):
         continue
     d = os.path.join(VERIF, 'seeded', name)
     pid = name.split('-')[0]
-    if subprocess.run(['git', '-C', '/repo', 'diff', '--quiet']).returncode != 0:
-        print('/repo dirty'); sys.exit(9)
-    ap = subprocess.run(['git', '-C', '/repo', 'apply', os.path.join(d, 'patch.diff')], capture_output=True, text=True)
+    scratch = '/var/tmp/seedsweep-%d' % os.getpid()
+    subprocess.run('rm -rf %s && mkdir -p %s && git -C /repo archive HEAD | tar -x -C %s' % (scratch, scratch, scratch), shell=True, check=True)
+    ap = subprocess.run(['git', 'apply', os.path.join(d, 'patch.diff')], capture_output=True, text=True, cwd=scratch)
     res = {}
     if ap.returncode != 0:
         res = {'_apply': 'patch does not apply to the current /repo: ' + ap.stderr[:300]}
@@ -27,11 +28,11 @@ for name in sorted(os.listdir(os.path.join(VERIF, 'seeded'))):
                     pass
                 if p in KXP and p != pid:
                     continue
-                r = subprocess.run([os.path.join(VERIF, 'check'), p, '--no-evidence'], capture_output=True, text=True, cwd=VERIF)
+                r = subprocess.run([os.path.join(VERIF, 'check'), p, '--no-evidence', '--src', scratch], capture_output=True, text=True, cwd=VERIF)
                 obl = sorted(set(re.findall(r'replay=/verif/replay/%s-([^ ]+?)\.json' % p, r.stdout)))
                 res[p] = {'exit': r.returncode, 'verdict': {0: 'quiet', 1: 'VIOLATION', 2: 'undecided'}.get(r.returncode, '?'), 'obligations': obl[:6]}
         finally:
-            subprocess.run(['git', '-C', '/repo', 'checkout', '--', '.'])
+            subprocess.run(['rm', '-rf', scratch])
     meta_p = os.path.join(d, 'meta.json')
     meta = json.load(open(meta_p)) if os.path.exists(meta_p) else {}
     meta.update({'seed': name, 'breaks_property': pid, 'property_title': props[pid]['title'],
